@@ -273,3 +273,15 @@ class Reporter:
         os.makedirs(os.path.join(VERIF, "evidence"), exist_ok=True)
         json.dump(ev, open(os.path.join(VERIF, "evidence", f"{self.prop}.json"), "w"), indent=1, default=str)
         return 1 if seen else 0
+
+
+def prune_cache(prefix, keep=3):
+    """Result caches are keyed on the hash of a worker binary: every change to the code under test leaves one behind that is
+    never used again.  Keep the newest `keep` files of a prefix."""
+    d = os.path.join(OUT, "cache")
+    try:
+        fs = sorted((f for f in os.listdir(d) if f.startswith(prefix)), key=lambda f: os.path.getmtime(os.path.join(d, f)), reverse=True)
+        for f in fs[keep:]:
+            os.remove(os.path.join(d, f))
+    except OSError:
+        pass
